@@ -264,6 +264,22 @@ def fc_signature(h, f):
 
 # ---------------------------------------------------------------------------------------------------------------
 
+def coq_tuples(body, arity):
+    """all tuples of `arity` numbers in the printed list `body`; None when some printed tuple could not be read.
+    Coq's printer breaks lines anywhere - also right after an opening parenthesis - and adds scope suffixes (3%nat)."""
+    flat = re.sub(r"%\w+", "", re.sub(r"\s+", "", body))
+    tups = re.findall(r"\((-?\d+(?:,-?\d+){%d})\)" % (arity - 1), flat)
+    if len(tups) != flat.count("("):
+        return None
+    return [tuple(int(x) for x in t.split(",")) for t in tups]
+
+
+def canary_case(t):
+    """a copy of the case text `t` whose first recorded dump has one value changed (None when it has no such value)"""
+    m = re.search(r"(o_dump := \[\(\(\d+%Z, \d+%Z\), \[\(\d+%Z, )(\d+)(%Z\))", t)
+    return t[:m.start(2)] + str(int(m.group(2)) + 1) + t[m.end(2):] if m else None
+
+
 def eval_model(ck, hs, ok):
     """returns {variant: {case index: (op index, code)}} ; variant in VARIANTS"""
     res = {v: {} for v in VARIANTS}
@@ -271,6 +287,7 @@ def eval_model(ck, hs, ok):
         return None
     shard = 20
     files, maps = [], []
+    canary = None
     for a in range(0, len(hs), shard):
         chunk = hs[a:a + shard]
         cases, idxmaps = [], []
@@ -278,6 +295,8 @@ def eval_model(ck, hs, ok):
             t, m = case_coq(h)
             cases.append(t)
             idxmaps.append(m)
+            if canary is None and not (h.get("oracle") or h.get("xoracle") or h.get("crash")):
+                canary = canary_case(t)
         txt = ("From Coq Require Import ZArith List Bool. From OG Require Import C02.Model C02.Corr.\n"
                "Import ListNotations. Open Scope Z_scope.\n"
                "Definition cases : list (nat * list (op * obs)) := [\n%s\n].\n"
@@ -285,15 +304,32 @@ def eval_model(ck, hs, ok):
                          for (w, m) in VARIANTS)) % ";\n".join(cases)
         files.append(("c02cases%d" % (a // shard), txt))
         maps.append((a, idxmaps))
+    # canary: 20 copies of a history whose recorded dump has one value changed MUST all be reported (20: the printed list
+    # is then wrapped over several lines, also right after an opening parenthesis, as real results are)
+    NCAN = 20
+    if canary is not None:
+        files.append(("c02canary", "From Coq Require Import ZArith List Bool. From OG Require Import C02.Model C02.Corr.\n"
+                      "Import ListNotations. Open Scope Z_scope.\n"
+                      "Definition cases : list (nat * list (op * obs)) := [\n%s\n].\n"
+                      "Definition M00 := Eval vm_compute in mismatches false 0 cases.\nPrint M00.\n" % ";\n".join([canary] * NCAN)))
     outs = ck.coq_eval_many(files, timeout=600)
+    if canary is not None:
+        rc, o = outs.pop()
+        m = re.search(r"M00\s*=\s*(.*?)\s*:\s*list", o, re.S)
+        tups = coq_tuples(m.group(1), 3) if rc == 0 and m else None
+        if tups is None or {t[0] for t in tups} != set(range(NCAN)):
+            ck.broken.append("C02 canary: a corrupted case was not reported by the model evaluation (%d copies of a history with one "
+                             "changed dump value; read back: %s)" % (NCAN, o[-300:] if tups is None else sorted(tups)[:NCAN]))
+    elif not getattr(ck, "replay", None):
+        ck.broken.append("C02 canary: no history without an oracle failure to build the corrupted case from")
     for (a, idxmaps), (rc, o) in zip(maps, outs):
         for name, key in [("M%d%d" % (int(w), m), (w, m)) for (w, m) in VARIANTS]:
             m = re.search(name + r"\s*=\s*(.*?)\s*:\s*list", o, re.S)
-            if rc != 0 or not m:
+            tups = coq_tuples(m.group(1), 3) if rc == 0 and m else None
+            if tups is None:
                 ck.broken.append("C02 model evaluation failed on shard starting at case %d: %s" % (a, o[-600:]))
                 return None
-            for k, i, code in re.findall(r"\((\d+)(?:%nat)?,\s*(\d+)(?:%nat)?,\s*(\d+)(?:%nat)?\)", m.group(1)):
-                k, i, code = int(k), int(i), int(code)
+            for k, i, code in tups:
                 res[key][a + k] = (idxmaps[k][i] if i < len(idxmaps[k]) else -1, code)
     return res
 
